@@ -262,7 +262,16 @@ impl KMap {
             } else {
                 ctx.push_container(id);
 
-                for (i, (key, value)) in self.data().iter().enumerate() {
+                // Displaying a value can run script code that accesses the map (via @display),
+                // so the map's data isn't kept borrowed while the entries are rendered.
+                for i in 0..self.len() {
+                    let Some((key, value)) = self
+                        .data()
+                        .get_index(i)
+                        .map(|(key, value)| (key.clone(), value.clone()))
+                    else {
+                        break;
+                    };
                     if i > 0 {
                         ctx.append(", ");
                     }
